@@ -514,9 +514,12 @@ int vh_gcheck(int a, long *where)
     if (!g->used) return 0;
     vh_gunpoison(a);
     s = g->lo > CANW ? g->lo - CANW : 0; e = g->hi + CANW < VH_G_DATA ? g->hi + CANW : VH_G_DATA;
-    for (i = s; i < g->lo; ++i) if (g->data[i] != canary(i)) { if (where) *where = (long)i - (long)g->lo; return 1; }
-    for (i = g->hi; i < e; ++i) if (g->data[i] != canary(i)) { if (where) *where = (long)i - (long)g->lo; return 1; }
-    return 0;
+    {
+        int bad = 0;
+        for (i = s; i < g->lo; ++i) if (g->data[i] != canary(i)) { if (!bad && where) *where = (long)i - (long)g->lo; bad = 1; g->data[i] = canary(i); }
+        for (i = g->hi; i < e; ++i) if (g->data[i] != canary(i)) { if (!bad && where) *where = (long)i - (long)g->lo; bad = 1; g->data[i] = canary(i); }
+        return bad;      /* damage is repaired so that it is reported once, by the call that caused it */
+    }
 }
 int vh_gwhich(const void *addr, long *rel, int *is_guard)
 {
